@@ -54,7 +54,7 @@ func prioOf(class int) gen.MessagePriority {
 }
 
 var recSeq = kit.NewRecorder("C03", "sequential",
-	"receiver kind in {actor, supervisor, pool, web worker} parked in a handler while a generated script of <= 40 items is enqueued one by one (messages and requests of Normal/High/Max priority by pid/name/alias, trapped exit signals, inspect requests, down notifications of killed monitored helpers, log records); up to 3 items park the receiver again while draining and inject more items of generated classes; "+
+	"receiver kind in {actor, supervisor, pool, web worker} (actor and web worker also with a bounded mailbox of 2-3 items per class) parked in a handler while a generated script of <= 40 items is enqueued one by one (messages and requests of Normal/High/Max priority by pid/name/alias, trapped exit signals, inspect requests, down notifications of killed monitored helpers, log records); up to 3 items park the receiver again while draining and inject more items of generated classes; "+
 		"oracle: reference model = four FIFOs drained Urgent>System>Main>Log one item at a time; the handled sequence must equal the model's exactly; "+
 		"non-trivial = >= 2 classes non-empty at once and >= 2 items in one class; distinct by script")
 
@@ -67,6 +67,7 @@ type env struct {
 	alias  gen.Alias
 	name   gen.Atom
 	sender gen.PID // process used for exit signals
+	limit  int64   // mailbox size of the receiver (0: unbounded); every queue holds that many items
 	// helpers
 	helperOf map[gen.PID]int
 	entered  map[int]chan struct{}
@@ -83,8 +84,9 @@ func (e *env) mailboxTotal() int64 {
 	return q.Main + q.System + q.Urgent + q.Log
 }
 
-// enqueue performs one op and waits until it is visible in the receiver's mailbox.
-func (e *env) enqueue(o op, expectTotal int64) {
+// enqueue performs one op and waits until it is visible in the receiver's mailbox. It reports
+// whether the item was accepted (a bounded mailbox refuses what its class's queue cannot hold).
+func (e *env) enqueue(o op, expectTotal int64) bool {
 	var to any = e.pid
 	switch o.Mode {
 	case 1:
@@ -104,6 +106,9 @@ func (e *env) enqueue(o op, expectTotal int64) {
 	case kMsg:
 		if o.Via == 0 {
 			if err := e.node.SendWithPriority(to, payload, prioOf(o.Class)); err != nil {
+				if e.limit > 0 && err == gen.ErrProcessMailboxFull {
+					return false
+				}
 				e.t.Fatalf("send %d: %v", o.ID, err)
 			}
 			break
@@ -122,6 +127,9 @@ func (e *env) enqueue(o op, expectTotal int64) {
 				serr = a.SendWithPriority(to, payload, prioOf(o.Class))
 			}
 		}); err != nil || serr != nil {
+			if err == nil && e.limit > 0 && serr == gen.ErrProcessMailboxFull {
+				return false
+			}
 			e.t.Fatalf("send %d from a process: %v %v", o.ID, err, serr)
 		}
 	case kReq:
@@ -189,6 +197,7 @@ func (e *env) enqueue(o op, expectTotal int64) {
 	if !kit.WaitUntil(3*time.Second, func() bool { return e.mailboxTotal() >= expectTotal }) {
 		e.t.Fatalf("item %d (kind %d class %d) did not show up in the mailbox (total %d, expected %d)", o.ID, o.Kind, o.Class, e.mailboxTotal(), expectTotal)
 	}
+	return true
 }
 
 func genOps(t *rapid.T, kind int, n int, nextID *int, allowPark bool, parks *int) []op {
@@ -199,6 +208,10 @@ func genOps(t *rapid.T, kind int, n int, nextID *int, allowPark bool, parks *int
 		// pick a kind admissible for the receiver kind
 		var kinds []int
 		switch kind {
+		case 10, 13:
+			// bounded mailbox (actor / web worker): plain messages of all classes; a refused one is
+			// simply not there, an accepted one is in the queue of its class
+			kinds = []int{kMsg}
 		case 0:
 			kinds = []int{kMsg, kMsg, kMsg, kReq, kExit, kInspect, kDown, kLog}
 		case 1:
@@ -264,13 +277,17 @@ func describe(ops []op) string {
 	return sb.String()
 }
 
-func setup(t *rapid.T, kind int, probe *kit.Probe, all []op) (*env, func()) {
+func setup(t *rapid.T, kind int, probe *kit.Probe, all []op, limits ...int64) (*env, func()) {
 	node, err := kit.StartLocalNode(func(o *gen.NodeOptions) { o.Log.Level = gen.LogLevelError })
 	if err != nil {
 		t.Fatalf("start node: %v", err)
 	}
 	e := &env{t: t, node: node, probe: probe, kind: kind, name: "recv", helperOf: map[gen.PID]int{},
 		entered: map[int]chan struct{}{}, release: map[int]chan struct{}{}}
+	if len(limits) > 0 {
+		e.limit = limits[0]
+	}
+	popts := gen.ProcessOptions{MailboxSize: e.limit}
 	for _, o := range all {
 		if o.Park {
 			e.entered[o.ID] = make(chan struct{})
@@ -299,7 +316,7 @@ func setup(t *rapid.T, kind int, probe *kit.Probe, all []op) (*env, func()) {
 						}
 					}
 				}
-			}}), gen.ProcessOptions{})
+			}}), popts)
 	case 1:
 		child := kit.Factory(&kit.ActorConfig{Label: "child", Probe: probe, Quiet: true})
 		e.pid, err = node.SpawnRegister("recv", kit.SupFactory(&kit.SupConfig{Label: "recv", Probe: probe,
@@ -308,7 +325,7 @@ func setup(t *rapid.T, kind int, probe *kit.Probe, all []op) (*env, func()) {
 					Children: []act.SupervisorChildSpec{{Name: "c1", Factory: child}}}, nil
 			}}), gen.ProcessOptions{})
 	case 3:
-		e.pid, err = node.SpawnRegister("recv", kit.WebFactory(&kit.WebConfig{Label: "recv", Probe: probe}), gen.ProcessOptions{})
+		e.pid, err = node.SpawnRegister("recv", kit.WebFactory(&kit.WebConfig{Label: "recv", Probe: probe}), popts)
 	case 2:
 		worker := kit.Factory(&kit.ActorConfig{Label: "worker", Probe: probe, Quiet: true})
 		e.pid, err = node.SpawnRegister("recv", kit.PoolFactory(&kit.PoolConfig{Label: "recv", Probe: probe,
@@ -407,15 +424,24 @@ func propSequential(t *rapid.T) {
 	if kind != 2 {
 		root.Class = cMain
 	}
-	root.Inject = genOps(t, kind, rapid.IntRange(3, 25).Draw(t, "n"), &nextID, true, &parks)
+	// actors and web workers also with a bounded mailbox (each class's queue holds that many)
+	limit := int64(0)
+	gkind := kind
+	if kind == 0 || kind == 3 {
+		limit = rapid.SampledFrom([]int64{0, 0, 0, 2, 3}).Draw(t, "mailbox_size")
+		if limit > 0 {
+			gkind = kind + 10
+		}
+	}
+	root.Inject = genOps(t, gkind, rapid.IntRange(3, 25).Draw(t, "n"), &nextID, true, &parks)
 	for i := range root.Inject {
 		if root.Inject[i].Park {
-			root.Inject[i].Inject = genOps(t, kind, rapid.IntRange(1, 4).Draw(t, "ninject"), &nextID, false, &parks)
+			root.Inject[i].Inject = genOps(t, gkind, rapid.IntRange(1, 4).Draw(t, "ninject"), &nextID, false, &parks)
 		}
 	}
 	all := flatten([]op{root})
 	probe := kit.NewProbe()
-	e, cleanup := setup(t, kind, probe, all)
+	e, cleanup := setup(t, kind, probe, all, limit)
 	defer cleanup()
 
 	// reference model
@@ -423,6 +449,7 @@ func propSequential(t *rapid.T) {
 	var expected []int
 	total := int64(0)
 	multi := false
+	refused := 0
 	e.enqueue(root, 0)
 	// root is taken immediately; wait for it to park
 	var handleParked func(o op)
@@ -433,9 +460,16 @@ func propSequential(t *rapid.T) {
 			t.Fatalf("item %d never reached its handler (expected order so far %v)", o.ID, expected)
 		}
 		for _, in := range o.Inject {
+			if !e.enqueue(in, total+1) {
+				refused++
+				// (a refusal is only plausible when the queue of that class is full)
+				if int64(len(queues[in.Class])) < e.limit {
+					t.Fatalf("item %d (class %d) was refused with 'mailbox full' while the queue of its class held %d of %d items", in.ID, in.Class, len(queues[in.Class]), e.limit)
+				}
+				continue
+			}
 			queues[in.Class] = append(queues[in.Class], in)
 			total++
-			e.enqueue(in, total)
 		}
 		nonEmpty, two := 0, false
 		for _, q := range queues {
@@ -495,7 +529,14 @@ func propSequential(t *rapid.T) {
 		t.Fatalf("receiver kind %d handled items in order %v, reference model says %v (script %s)", kind, g, expected, describe([]op{root}))
 	}
 	e.wg.Wait()
-	recSeq.Case(multi, fmt.Sprintf("kind=%d %s", kind, describe([]op{root})), fmt.Sprintf("receiver=%d", kind), fmt.Sprintf("parks=%d", parks))
+	labels := []string{fmt.Sprintf("receiver=%d", kind), fmt.Sprintf("parks=%d", parks)}
+	if limit > 0 {
+		labels = append(labels, "bounded-mailbox")
+		if refused > 0 {
+			labels = append(labels, "some-refused")
+		}
+	}
+	recSeq.Case(multi, fmt.Sprintf("kind=%d limit=%d %s", kind, limit, describe([]op{root})), labels...)
 }
 
 func TestSequential(t *testing.T) {
